@@ -20,7 +20,7 @@ ASSUMPTIONS = [
     "linear (lossy) sources are counted as delivered power (generator convention), all other elements in the passive convention",
     "relative tolerance 1e-9 + 256 kappa 2^-53 on sum|P| (balance) and on |V||I| (definition clauses)",
 ]
-N = {'quick': {'net': 3000, 'circ': 4000, 'time': 400, 'transient': 320}, 'thorough': {'net': 40000, 'circ': 50000, 'time': 5000, 'transient': 4000}}
+N = {'quick': {'net': 6000, 'circ': 8000, 'time': 800, 'transient': 640}, 'thorough': {'net': 40000, 'circ': 50000, 'time': 5000, 'transient': 4000}}
 W_RES = 1e-3
 
 
